@@ -94,6 +94,12 @@ NEAR_MISS_TEXT = {
 'nm_crossing_loop': "token A B C; start s; s: <1 A <2 (B 2>y 1>x)* C;",
 'nm_crossing_after_loop': "token A B C; start s; s: <1 A <2 B (C 1>x)* 2>y;",
 'nm_crossing_alt': "token A B C; start s; s: <1 A (<2 B 1>x 2>y | C);",
+'nm_leftrec_choice': "token A B C; start s; s: x; x: A B / x C;",
+'nm_leftrec_choice_first': "token A B C; start s; s: x; x: x C / A B;",
+'nm_leftrec_opt': "token A B; start s; s: x B; x: [x] A;",
+'nm_leftrec_star': "token A B; start s; s: x B; x: x* A;",
+'nm_leftrec_pred_indirect': "token A B C D; start s; s: x; x: ?1 y C | A B; y: x D;",
+'nm_leftrec_indirect_nullable': "token A B; start s; s: x B; x: y x A | B; y: [A];",
 'nm_rec_noconsume': "token A B; start s; s: x B; x: [A] x | B;",
 'nm_indirect_leftrec': "token A B; start s; s: x; x: y A | B; y: x B | A;",
 'nm_mixed_assoc': "token N P H; right H; start s; s: e; e: e (P | H) e | N;",
